@@ -69,6 +69,10 @@ type E2ECase struct {
 	FaultPct  int     `json:"fault_pct"`
 	MaxFaults int     `json:"max_faults"`
 	Decisions []Dec   `json:"decisions,omitempty"`
+	// systematic exploration (replays use Decisions)
+	Explore   bool  `json:"-"`
+	Choices   []int `json:"-"`
+	optCounts []int
 }
 
 type Event struct {
@@ -427,6 +431,7 @@ func runE2EInner(c *E2ECase, res *E2EResult) {
 	res.Caps = append(res.Caps, remote.VerifReferrersState(repo))
 	faults := 0
 	dpos := 0
+	cpos := 0
 
 	classify := func(ex *fakereg14.Exchange) (string, int) {
 		if ex.Kind != "manifest" {
@@ -513,7 +518,31 @@ func runE2EInner(c *E2ECase, res *E2EResult) {
 				}
 				dpos++
 			}
-			if !followed {
+			if !followed && c.Explore {
+				// systematic exploration: options = parked exchanges, each of the index
+				// exchanges also failing while the fault budget lasts
+				type opt struct {
+					p *parked
+					f bool
+				}
+				var opts []opt
+				for _, p := range ps {
+					opts = append(opts, opt{p, false})
+					if cl, _ := classify(p.ex); strings.HasPrefix(cl, "idx-") && faults < c.MaxFaults {
+						opts = append(opts, opt{p, true})
+					}
+				}
+				ch := 0
+				if cpos < len(c.Choices) {
+					ch = c.Choices[cpos]
+				}
+				cpos++
+				c.optCounts = append(c.optCounts, len(opts))
+				if ch >= len(opts) {
+					ch = 0
+				}
+				pick, fail = opts[ch].p, opts[ch].f
+			} else if !followed {
 				pick = ps[sched.Intn(len(ps))]
 				cl, _ := classify(pick.ex)
 				if strings.HasPrefix(cl, "idx-") && faults < c.MaxFaults && sched.Intn(100) < c.FaultPct {
